@@ -63,6 +63,10 @@ func runC12(c *Ctx) {
 	c.Rule("C12.O3", "E4,E2-escape", "client: mask bit set, key in the 4 bytes before the payload, maskXOR on the frame buffer only, caller's data only read; decoder: unmask only on the frame-complete edge; afterwards the frame is consumed or an error is set", 3)
 	c.Rule("C12.O4", "E4", "WriteMessage fragmentation: opcode and compression bit only on the first fragment, FIN iff n==len(rest), n<=MaxWebsocketFramePayloadSize, rest advances by n, empty message emits one FIN frame", 2)
 	c.Rule("C12.O6", "E4", "per-message compression: Conn.compress is taken from a frame's RSV1 only while no message is open (msgType == 0) and cleared on the FIN edge; every inflate is decided by that field, not by the current frame's bit (only the first fragment carries RSV1)", 2)
+	c.Rule("C12.O7", "E4", "the per-message state (msgType, compress) is reset only inside the data-frame case: no path through a control frame's case reaches a reset (a Ping between two fragments must not wipe the message under assembly)", 1)
+	c.Rule("C12.O8", "E4", "pooled (de)compressors are handed back once: every sync.Pool.Put of a wrapper's reader/writer is followed on every path by clearing the wrapper's field", 2)
+	c12ResetScope(c)
+	c12PoolOnce(c)
 	c.Rule("C12.O5", "E4", "reassembly: tail append; msgType assigned only while 0; reset on FIN; control frames leave message alone; the hand-off is decided by a flag set on the FIN edge, not by the buffer being non-nil", 4)
 	c12CompressFlag(c)
 
@@ -1060,4 +1064,83 @@ func c12CompressFlag(c *Ctx) {
 		bad = "no inflate step found"
 	}
 	c.Cond(bad == "", "C12.O6", fnKey(c.P, parse, "inflate iff the message is compressed"), c.FnPos(parse), fmt.Sprintf("%d inflate call(s) behind Conn.compress", n), bad)
+}
+
+// c12ResetScope: O7.
+func c12ResetScope(c *Ctx) {
+	parse := c.Fn("C12.O7", "(*websocket.Conn).Parse")
+	if parse == nil {
+		return
+	}
+	bad := ""
+	n := 0
+	for _, f := range ir.WithClosures(parse) {
+		fi := c.P.Info(f)
+		var resets []ssa.Instruction
+		for _, field := range []string{"websocket.Conn.msgType", "websocket.Conn.compress"} {
+			for _, st := range c.P.StoresTo(f, field) {
+				if k, ok := st.Val.(*ssa.Const); ok && (k.Value == nil || k.Value.String() == "0" || k.Value.String() == "false") {
+					resets = append(resets, st)
+				}
+			}
+		}
+		if len(resets) == 0 {
+			continue
+		}
+		// edges "opcode == Fragment/Text/Binary"
+		skip := func(i *ssa.If, k int) bool {
+			b, ok := i.Cond.(*ssa.BinOp)
+			if !ok || b.Op != token.EQL || k != 0 {
+				return false
+			}
+			if !strings.HasSuffix(b.X.Type().String(), "websocket.MessageType") {
+				return false
+			}
+			v, isK := ir.ConstInt(b.Y)
+			return isK && v >= 0 && v <= 2
+		}
+		first := f.Blocks[0].Instrs[0]
+		vis, _ := fi.ReachOpt([]ssa.Instruction{first}, nil, skip)
+		for _, st := range resets {
+			n++
+			if vis[st] {
+				bad = "the per-message state is reset at " + c.Pos(st) + " on a path that does not go through the data-frame case: a control frame (always FIN) between two fragments wipes the message type and the compression flag of the message under assembly"
+			}
+		}
+	}
+	if n == 0 && bad == "" {
+		bad = "no reset of msgType / compress found"
+	}
+	c.Cond(bad == "", "C12.O7", fnKey(c.P, parse, "reset inside the data-frame case only"), c.FnPos(parse), fmt.Sprintf("%d reset store(s), all behind opcode in {0,1,2}", n), bad)
+}
+
+// c12PoolOnce: O8.
+func c12PoolOnce(c *Ctx) {
+	for _, f := range c.pkgFuncs("websocket") {
+		fi := c.P.Info(f)
+		for _, cs := range c.P.CallsNamed(f, "(*sync.Pool).Put") {
+			arg := cs.Common.Args[1]
+			if mi, ok := arg.(*ssa.MakeInterface); ok {
+				arg = mi.X
+			}
+			field := c.P.LoadedField(ir.Resolve(arg))
+			if ci, ok := ir.Resolve(arg).(*ssa.ChangeInterface); ok {
+				field = c.P.LoadedField(ir.Resolve(ci.X))
+			}
+			if !strings.HasPrefix(field, "websocket.flate") {
+				continue
+			}
+			key := fnKey(c.P, f, "Put("+field+") then clear")
+			isClear := func(in ssa.Instruction) bool {
+				st, ok := in.(*ssa.Store)
+				if !ok {
+					return false
+				}
+				fa, ok := st.Addr.(*ssa.FieldAddr)
+				return ok && c.P.FieldKey(fa) == field && ir.IsNilConst(st.Val)
+			}
+			esc := fi.EscapesWithout([]ssa.Instruction{cs.In}, isClear)
+			c.Cond(len(esc) == 0, "C12.O8", key, c.Pos(cs.In), "the wrapper forgets the pooled object", "the object put into the pool at "+c.Pos(cs.In)+" stays in "+field+": a later Close puts it again, and two connections can then draw the same (de)compressor")
+		}
+	}
 }
